@@ -205,6 +205,7 @@ type Outcome struct {
 	CreateErrVal   error             `json:"-"`
 	Unsupported    bool              `json:"unsupported,omitempty"`
 	ClientPanic    string            `json:"client_panic,omitempty"`
+	CancelPanic    string            `json:"cancel_panic,omitempty"` // panic inside Cancel()/Close() called by the second client
 	Fallback       bool              `json:"fallback,omitempty"`
 	DNative        float64           `json:"d_native"`
 	DFallback      float64           `json:"d_fallback"`
@@ -404,11 +405,20 @@ func RunQuery(r QueryRun) (o *Outcome) {
 				o.ParkedAtCancel = r.Sim.ParkedSites()
 			}
 			sched.Note("client-cancel")
-			if op.ClientClose {
-				q.Close()
-			} else {
-				q.Cancel()
-			}
+			func() {
+				// Cancel and Close are engine API calls made on the client's goroutine: a panic
+				// in them would take the embedding process down (C13)
+				defer func() {
+					if p := recover(); p != nil {
+						o.CancelPanic = fmt.Sprintf("%v | %s", p, trimStack(debug.Stack()))
+					}
+				}()
+				if op.ClientClose {
+					q.Close()
+				} else {
+					q.Cancel()
+				}
+			}()
 			if o.ExecStart != 0 && o.ExecEnd == 0 {
 				if r.Acct != nil {
 					r.Acct.NoteClientCancel()
